@@ -2,6 +2,8 @@
 package main
 
 import (
+	"fmt"
+	"hash/fnv"
 	"strings"
 
 	"github.com/mmcloughlin/addchain"
@@ -69,6 +71,42 @@ func oracle(c, res string) string {
 	want := c04c16.Values(p)
 	payload := strings.TrimPrefix(res, "ok ")
 	switch f[0] {
+	case "rebuild":
+		// every script obtained from one decompiled program (Build x3, acc.String, acc.Write)
+		// loads back to the chain
+		q, err := acc.Decompile(p)
+		if err != nil {
+			return "Decompile: " + err.Error()
+		}
+		r, msg := c04c16.Rebuild(q)
+		if r == nil {
+			return "rebuilding failed: " + msg
+		}
+		for k, s := range r.Trees {
+			chain, ops, _, ierr := c04c16.Interpret(s)
+			if ierr != nil {
+				return fmt.Sprintf("build %d of the same program has no meaning: %v", k+1, ierr)
+			}
+			if !lib.EqualInts(chain, want) || !c04c16.SameUpToOrder(ops, p) {
+				return fmt.Sprintf("build %d of the same program computes a different chain", k+1)
+			}
+		}
+		for k, text := range r.Texts {
+			l, err := acc.LoadString(text)
+			if err != nil {
+				return fmt.Sprintf("script text %d of the same program does not load: %v", k+1, err)
+			}
+			if !lib.EqualInts(l.Chain, want) || !c04c16.SameUpToOrder(l.Program, p) {
+				return fmt.Sprintf("script text %d of the same program loads to a different chain", k+1)
+			}
+		}
+		if msg != "" {
+			return msg
+		}
+		if !lib.EqualInts(r.Chain, want) {
+			return "building changed the chain values of the program"
+		}
+		return ""
 	case "expand":
 		if payload != f[1] {
 			return "Compile(Decompile(p)) differs from p"
@@ -128,6 +166,17 @@ func oracle(c, res string) string {
 	if !c04c16.SameUpToOrder(ops, p) {
 		return "built script performs different operations"
 	}
+	// printing and re-parsing dominates the run time (the generated parser memoises): for the
+	// ~100 000 exhaustive programs of length 6 -- all values below 2^8, no inlining, statements of
+	// the shape name = a + b -- the text step runs on one case in four; the tree is always
+	// interpreted above
+	if len(p) == 6 {
+		h := fnv.New32a()
+		h.Write([]byte(c))
+		if h.Sum32()%4 != 0 {
+			return ""
+		}
+	}
 	text, err := printer.String(s)
 	if err != nil {
 		return "print: " + err.Error()
@@ -153,7 +202,8 @@ func oracle(c, res string) string {
 func main() {
 	lib.Main(lib.Prop{
 		ID:     "C04",
-		Gen:    c04c16.Gen([]string{"decompile", "build", "expand", "retranslate", "dangling"}),
+		Gen:    c04c16.Gen([]string{"decompile", "build", "expand", "retranslate", "dangling"}, []string{"rebuild"}),
+		Neighbours: c04c16.Neighbours,
 		Run:    c04c16.Run,
 		Oracle: oracle,
 		Nontrivial: func(c, res string) bool {
